@@ -118,7 +118,7 @@ func genC04(r *Rng) *Scenario {
 		}
 		sc.Ops = append(sc.Ops, Op{AtUs: 0, Actor: 1, Kind: "handle", Handler: h})
 	}
-	emptyUsed := false
+	emptyUsed, bigUsed := false, false
 	sc.Ops = append(sc.Ops, Op{AtUs: 1, Actor: 0, Kind: "connect"})
 	t := rtt(cfg) + 10
 	n := int(r.between(1, 10))
@@ -163,6 +163,12 @@ func genC04(r *Rng) *Scenario {
 			if r.chance(0.15) {
 				o.Pkt.ID = uint16(r.between(4, 9)) // unknown id
 			}
+		}
+		if o.Pkt.Type == TPublish && !bigUsed && r.chance(0.004) {
+			// a payload that needs a four-byte remaining length (2 MiB and more)
+			o.Pkt.Pay = fmt.Sprintf("%s~%d", tok, 2097152+r.IntN(70000))
+			bigUsed = true
+			cfg.Frag = nil
 		}
 		if o.Pkt.Type == TPublish && !emptyUsed && r.chance(0.1) {
 			o.Pkt.Pay = "" // a legal zero-length payload (one per run: it is its own identity)
